@@ -159,11 +159,17 @@ class H2Protocol:
         else:
             self.connection.initiate_connection()
         await self._flush()
+        # The send task must exist before the upgrade request is given
+        # to a stream, a stream that answers by itself (unknown server
+        # name, invalid websocket handshake) waits for its response
+        # to be sent.
+        self.task_group.spawn(self.send_task)
         if headers is not None:
             event = _SyntheticRequest(1, headers)
             await self._create_stream(event)
-            await self.streams[event.stream_id].handle(EndBody(stream_id=event.stream_id))
-        self.task_group.spawn(self.send_task)
+            stream = self.streams.get(event.stream_id)
+            if stream is not None:  # Otherwise answered and closed already
+                await stream.handle(EndBody(stream_id=event.stream_id))
 
     async def send_task(self) -> None:
         # This should be run in a seperate task to the rest of this
